@@ -68,7 +68,7 @@ Proof.
               | Some pk => key_mem (proj pk nr) (map (proj pk) (t_rows tb)) && negb (key_eqb (proj pk nr) (proj pk r))
               | None => false end) eqn:Ep; [discriminate|].
     destruct (fk_validate proj d (t_fks tb) nr) eqn:Ef; [discriminate|].
-    destruct (plan_updates d tb asg sel) as [ups0| |] eqn:Er; try discriminate.
+    destruct (plan_updates d tb asg sel) as [ups0|] eqn:Er; try discriminate.
     inversion H; subst ups. destruct (IH ups0 eq_refl) as [E F]. split; [cbn; rewrite E; reflexivity|].
     constructor; [|exact F]. unfold planned, upd_old, upd_new. cbn. repeat split; auto.
     intros pk Hpk Hin. rewrite Hpk in Ep. apply andb_false_iff in Ep. destruct Ep as [Ep|Ep].
@@ -989,7 +989,7 @@ Proof.
   destruct (get_table d t) as [tb|] eqn:G; [|inversion E; subst; auto].
   set (sel := select_from 0 wh (t_rows tb)) in *.
   destruct (negb (forallb (fun a => Nat.ltb (fst a) (ncols tb)) asg)); [inversion E; subst; auto|].
-  destruct (plan_updates d tb asg sel) as [ups| |] eqn:EP; [|inversion E; subst; auto..].
+  destruct (plan_updates d tb asg sel) as [ups|] eqn:EP; [|inversion E; subst; auto].
   destruct (plan_updates_spec _ _ _ _ _ EP) as [ESEL PL]. rewrite Forall_forall in PL.
   destruct (select_from_spec wh (t_rows tb) 0) as [SF SND]. fold sel in SF, SND. rewrite Forall_forall in SF.
   pose proof (get_table_In _ _ _ G) as [Gin Gn].
